@@ -3,7 +3,7 @@ from vf import Query
 SRC = ["src/kernel/activity/MailboxImpl.cpp", "src/kernel/activity/CommImpl.cpp", "src/kernel/activity/ActivityImpl.cpp"]
 THOROUGH_MAX = 70  # all quick shapes + a fixed strided sample of the other thorough shapes (lib/vf.py)
 META = {
-    "bounds": "mailbox queue (pending or done queue) of 1..3 comms (quick: <=2), fully symbolic search (types, tags, filters, wanted type: decided path by path; quick: one queued comm, thorough: two) and, for longer queues, position of the first comm of the wanted type fixed per query (comms before it have the other type, or the right type with an own filter that refuses the searcher; searcher with or without a filter object), type/tag/filter of "
+    "bounds": "mailbox queue (pending or done queue) of 1..3 comms (quick: <=2), fully symbolic search (types, tags, filters, wanted type: decided path by path, one queued comm) and, for longer queues, position of the first comm of the wanted type fixed per query (comms before it have the other type, or the right type with an own filter that refuses the searcher; searcher with or without a filter object), type/tag/filter of "
               "the comms behind it symbolic, searcher's tag symbolic; with removal; remove() of the k-th comm; "
               "copy_data: payload of 8 symbolic bytes, sizes 0..8 symbolic, missing source / missing size pointer / already-copied flags symbolic; unwind 10",
     "outside": "CommImpl::isend/irecv pairing through the engine, rates and network actions, detached clean-up, permanent-receiver bookkeeping (set_receiver), the s4u layer",
@@ -21,9 +21,10 @@ def queries(tier):
     for n in range(1, mq + 1):
         for done in (0, 1):
             # fully symbolic search (type, tag and own filter of every queued comm, wanted type, tag and filter of the searcher): path-by-path exploration
-            tiers = ("quick", "thorough") if n == 1 else ("thorough",)
-            q(f"find_symbolic_q{n}_done{done}", dict(P_MODE=0, P_Q=n, P_REMOVE=0, P_DONE=done), paths=True, tiers=tiers)
-            q(f"find_remove_symbolic_q{n}_done{done}", dict(P_MODE=0, P_Q=n, P_REMOVE=1, P_DONE=done), paths=True, tiers=tiers)
+            # (one queued comm only: with two or three, path by path, no verdict in 900 s when the tier runs 10 queries in parallel -- measured)
+            if n == 1:
+                q(f"find_symbolic_q{n}_done{done}", dict(P_MODE=0, P_Q=n, P_REMOVE=0, P_DONE=done), paths=True)
+                q(f"find_remove_symbolic_q{n}_done{done}", dict(P_MODE=0, P_Q=n, P_REMOVE=1, P_DONE=done), paths=True)
             # (in merge mode the fully symbolic search does not finish: the matched pointer becomes symbolic and every later release explores ~CommImpl)
             for exp in range(n):
                 for want in (0, 1):
